@@ -86,7 +86,13 @@ def input_digest(prog):
             tabs[k] = v
         elif isinstance(v, dict) and v.get("__series__"):
             tabs[k] = {"s": v["values"]}
+    for k, v in prog.get("extra", {}).items():
+        if isinstance(v, dict) and v.get("__tx__"):
+            for r in v["rows"]:
+                out[r[0] + 1] ^= zlib.crc32(("%s|%r" % (k, r)).encode())
     for tn, tab in sorted(tabs.items()):
+        if tab.get("__tx__"):
+            continue
         rows = tab.get("__idx__")
         lead = int(tab.get("__lead__", 0))
         for c, col in sorted((kv for kv in tab.items() if kv[0] not in ("__idx__", "__lead__")), key=lambda kv: kv[0]):
@@ -101,7 +107,8 @@ def perturb(prog, cut, rng, kind=None):
     """A copy of prog whose supplied data strictly after date index `cut`
     (1-based over the data rows) is changed; the date index itself is kept."""
     q = copy.deepcopy(prog)
-    tabs = [("px", q["px"])] + [(k, v) for k, v in q.get("extra", {}).items() if isinstance(v, dict) and not v.get("__raw__") and not v.get("__group__")]
+    tabs = [("px", q["px"])] + [(k, v) for k, v in q.get("extra", {}).items() if isinstance(v, dict) and not v.get("__raw__") and not v.get("__group__") and not v.get("__tx__")]
+    blotters = [v for v in q.get("extra", {}).values() if isinstance(v, dict) and v.get("__tx__")]
     for k, v in q.get("extra", {}).items():
         if isinstance(v, dict) and v.get("__group__"):
             tabs += [(k + "." + m, tab) for m, tab in v["frames"].items()]
@@ -127,4 +134,24 @@ def perturb(prog, cut, rng, kind=None):
                 if new != old:
                     changed = True
                 col[i] = new
+    if blotters and kind != "px":
+        for bl in blotters:
+            new = []
+            for r in bl["rows"]:
+                if r[0] >= cut:
+                    m = rng.random()
+                    if m < 0.3:
+                        changed = True
+                        continue  # the trade did not happen
+                    r = list(r)
+                    r[2] = r[2] * rng.choice([2, -1, 0.5]) if m < 0.7 else r[2]
+                    r[3] = r[3] + rng.choice([-2, 1, 3])
+                    changed = True
+                new.append(r)
+            T = q["T"]
+            for _ in range(rng.randint(0, 2)):
+                if cut < T:
+                    new.append([rng.randint(cut, T - 1), rng.choice(q["cols"]), rng.choice([5, -5, 20]), rng.choice([10, 20, 30]), 0])
+                    changed = True
+            bl["rows"] = sorted(new, key=lambda r: (r[0], -r[4] if len(r) > 4 else 0))
     return q, changed
